@@ -43,6 +43,7 @@ type parkedCall struct {
 	seq int
 	req int
 	ch  chan error
+	ctx context.Context
 }
 
 type Sched struct {
@@ -69,6 +70,7 @@ type Sched struct {
 	draining    bool
 	CancelledAt int // released calls at the moment the cancel was delivered (-1: none)
 	Ties        int
+	Zombies     int // calls that arrived on, or were overtaken by, a cancelled context
 }
 
 func NewSched(t *Tape) *Sched {
@@ -87,7 +89,18 @@ func NewSched(t *Tape) *Sched {
 // caller until the controller releases it and returns the injected error, if
 // any. req identifies the request the call belongs to (from the context).
 func (s *Sched) Enter(ctx context.Context, op, key string) error {
-	p := &parkedCall{key: key, op: op, ch: make(chan error), req: reqOf(ctx)}
+	// A storage call issued on a context that is already cancelled fails at
+	// once in database/sql; it never reaches the database and is not a
+	// scheduling event. (Whether a cancelled sub-check gets this far at all is
+	// decided by Go's select, which is not seedable: keeping such calls out of
+	// the parked set keeps the tape's choices independent of it.)
+	if err := ctx.Err(); err != nil {
+		s.mu.Lock()
+		s.Zombies++
+		s.mu.Unlock()
+		return err
+	}
+	p := &parkedCall{key: key, op: op, ch: make(chan error), req: reqOf(ctx), ctx: ctx}
 	s.mu.Lock()
 	p.seq = s.arrivals
 	s.arrivals++
@@ -176,6 +189,9 @@ func (s *Sched) Drive(done func() bool, maxSteps int) DriveOutcome {
 			continue
 		}
 		P := s.snapshot()
+		if s.flushZombies(P) {
+			continue
+		}
 		if len(P) == 0 {
 			return DriveHang
 		}
@@ -240,9 +256,27 @@ func (s *Sched) release(p *parkedCall) {
 	p.ch <- err
 }
 
-// Drain releases everything that is still parked (one call per quantum, in
-// canonical order) until the bubble is quiet. It is used after the request
-// returned and its context was cancelled.
+// flushZombies fails every parked call whose context has been cancelled in
+// the meantime (it would fail in database/sql without reaching the database).
+func (s *Sched) flushZombies(P []*parkedCall) bool {
+	any := false
+	for _, p := range P {
+		if err := p.ctx.Err(); err != nil {
+			s.remove(p)
+			s.mu.Lock()
+			s.Zombies++
+			s.mu.Unlock()
+			p.ch <- err
+			any = true
+		}
+	}
+	return any
+}
+
+// Drain is used after the request returned and its context was cancelled:
+// everything still parked is now on a cancelled context and fails; anything
+// that is still live (a context the request does not own) is released in
+// canonical order, one call per quantum.
 func (s *Sched) Drain(limit int) (released int) {
 	s.draining = true
 	for released < limit {
@@ -250,6 +284,10 @@ func (s *Sched) Drain(limit int) (released int) {
 		P := s.snapshot()
 		if len(P) == 0 {
 			return
+		}
+		if s.flushZombies(P) {
+			released++
+			continue
 		}
 		s.release(P[0])
 		released++
